@@ -63,6 +63,10 @@ type Conn struct {
 	chSessionInited chan struct{}
 	session         interface{}
 
+	// for a conn transferred to the poller during Upgrade: closed when the
+	// open handler has returned, the message handlers wait for it.
+	chOpened chan struct{}
+
 	subprotocol string
 
 	compressionLevel int
@@ -188,6 +192,7 @@ func (c *Conn) handleDataFrame(opcode MessageType, fin bool, pbody *[]byte) {
 			if c.releasePayload {
 				defer c.Engine.BodyAllocator.Free(pbody)
 			}
+			c.waitOpened()
 			h(c, opcode, fin, pbody)
 		}) {
 			if c.releasePayload {
@@ -213,6 +218,7 @@ func (c *Conn) handleMessage(opcode MessageType, pbody *[]byte) {
 			if c.releasePayload {
 				defer c.Engine.BodyAllocator.Free(pbody)
 			}
+			c.waitOpened()
 			c.handleWsMessage(opcode, pbody)
 		}) {
 			if c.releasePayload {
@@ -1009,6 +1015,16 @@ func (c *Conn) writeFrame(messageType MessageType, sendOpcode, fin bool, data []
 	c.Engine.BodyAllocator.Free(pbuf)
 
 	return err
+}
+
+// waitOpened blocks until the open handler has returned. A conn that has been
+// transferred to the poller is readable before Upgrade calls the open handler.
+//
+//go:norace
+func (c *Conn) waitOpened() {
+	if c.chOpened != nil {
+		<-c.chOpened
+	}
 }
 
 // Write overwrites nbio.Conn.Write.
